@@ -28,6 +28,9 @@ class Unsupported(BaseException):
     """The proxy was used in a way the engine does not model (harness error)."""
 
 
+STUB_GAPS = []      # API of a real dependency that the code under test asked a contract stub for and the stub does not model
+
+
 def simulated(exc):
     """mark an exception that a contract stub raises ON PURPOSE (it stands for a documented failure of the real
     dependency); any other exception that originates in /verif code is a harness fault, not a finding"""
